@@ -241,8 +241,8 @@ def fields_work(out):
 def _forms():
     F = {}
 
-    def reg(name, kind, elem, meshes, residual, jac, linear=False):
-        F[name] = dict(kind=kind, elem=elem, meshes=meshes, residual=residual, jac=jac, linear=linear)
+    def reg(name, kind, elem, meshes, residual, jac, linear=False, cplx=False):
+        F[name] = dict(kind=kind, elem=elem, meshes=meshes, residual=residual, jac=jac, linear=linear, cplx=cplx)
     S = ['L3', 'T2', 'T2:mirrored', 'K1']
     # scalar elements ------------------------------------------------------------------------------------------
     reg('cubic', 'scalar', {'L3': 'ElementLineP2', 'T2': 'ElementTriP2', 'K1': 'ElementTetP1'}, S,
@@ -261,6 +261,10 @@ def _forms():
     reg('linear', 'scalar', {'L3': 'ElementLineP2', 'T2': 'ElementTriP2', 'K1': 'ElementTetP1'}, S,
         lambda np_, H, u, v, w: H.dot(u.grad, v.grad) + 2 * u * v * (1 + w.x[0]) - 1.0 * v,
         lambda np_, H, u0, du, v, w: H.dot(du.grad, v.grad) + 2 * du * v * (1 + w.x[0]), linear=True)
+    # complex-valued form (dtype=complex): complex coefficients in the operator and in the load
+    reg('complex', 'scalar', {'L3': 'ElementLineP2', 'T2': 'ElementTriP1', 'K1': 'ElementTetP1'}, ['L3', 'T2', 'K1'],
+        lambda np_, H, u, v, w: (1 + 2j) * H.dot(u.grad, v.grad) + (2 - 1j) * u * u * v * (1 + w.x[0]) - (1 + 3j) * v,
+        lambda np_, H, u0, du, v, w: (1 + 2j) * H.dot(du.grad, v.grad) + (2 - 1j) * 2 * u0 * du * v * (1 + w.x[0]), cplx=True)
     # default parameters of the basis (w.x, w.h; w.n on facet bases) inside a nonlinear integrand
     reg('defaults', 'scalar', {'L3': 'ElementLineP2', 'T2': 'ElementTriP2', 'K1': 'ElementTetP1'}, S,
         lambda np_, H, u, v, w: u * v * w.h + w.x[0] * u * u * v + H.dot(u.grad, v.grad) * (1 + w.x[0] * w.x[0]),
@@ -323,10 +327,11 @@ def form_work(fname, meshlabel, tier, seed, out):
         out.violation(sig0 + what, f"{msg} [integrand {fname}, element {ename}, mesh {meshlabel}]", case=dict(case0, **kw))
     res, jac = spec['residual'], spec['jac']
     comp = spec['kind'] == 'composite'
+    fkw = {'dtype': np.complex128} if spec['cplx'] else {}
     if comp:
-        nl = NonlinearForm(lambda u, p, v, q, w: res(jnp, HJ, u, p, v, q, w))
+        nl = NonlinearForm(lambda u, p, v, q, w: res(jnp, HJ, u, p, v, q, w), **fkw)
     else:
-        nl = NonlinearForm(lambda u, v, w: res(jnp, HJ, u, v, w))
+        nl = NonlinearForm(lambda u, v, w: res(jnp, HJ, u, v, w), **fkw)
     nmax = 12 if tier == 'quick' else 30
     pts = [('zero', np.zeros(N))]
     for k in range(min(N, nmax)):
@@ -341,8 +346,8 @@ def form_work(fname, meshlabel, tier, seed, out):
         def residual_vec(x):
             ui = b.interpolate(x)
             if comp:
-                return LinearForm(lambda v, q, w: res(np, HN, w['a'], w['c'], v, q, w)).assemble(b, a=ui[0], c=ui[1])
-            return LinearForm(lambda v, w: res(np, HN, w['a'], v, w)).assemble(b, a=ui)
+                return LinearForm(lambda v, q, w: res(np, HN, w['a'], w['c'], v, q, w), **fkw).assemble(b, a=ui[0], c=ui[1])
+            return LinearForm(lambda v, w: res(np, HN, w['a'], v, w), **fkw).assemble(b, a=ui)
         for lab, x in pts:
             out.ev()
             try:
@@ -360,9 +365,9 @@ def form_work(fname, meshlabel, tier, seed, out):
                 return False
             # hand-linearised Jacobian
             if comp:
-                Jh = BilinearForm(lambda du, dp, v, q, w: jac(np, HN, w['a'], w['c'], du, dp, v, q, w)).assemble(b, a=ui[0], c=ui[1])
+                Jh = BilinearForm(lambda du, dp, v, q, w: jac(np, HN, w['a'], w['c'], du, dp, v, q, w), **fkw).assemble(b, a=ui[0], c=ui[1])
             else:
-                Jh = BilinearForm(lambda du, v, w: jac(np, HN, w['a'], du, v, w)).assemble(b, a=ui)
+                Jh = BilinearForm(lambda du, v, w: jac(np, HN, w['a'], du, v, w), **fkw).assemble(b, a=ui)
             Jh = Jh.toarray()
             sc = 1 + np.abs(Jh).max()
             if Jd.shape != Jh.shape or np.abs(Jd - Jh).max() > 1e-10 * sc:
